@@ -69,6 +69,7 @@ def base_scenarios(tier):
                 # (a source fed by a job is not DERIVED from the bars: subscribed first it legitimately goes first)
                 for script in singles:
                     out.append((npairs, times, layout, False, "job-signal", None, script, "market"))
+                    out.append((npairs, times, layout, False, "job-signal", "mid", script, "market"))
     return out
 
 
@@ -296,7 +297,7 @@ def make_run(base, maxc, states=None):
 
         def subscribe():
             for i in range(npairs):
-                if recorder == i:
+                if recorder == i and recorder != "mid":
                     e.subscribe_to_bar_events(PS[i], loud(passive))
                 e.subscribe_to_bar_events(PS[i], loud(mkh(i)))
             sig.subscribe_to_trading_signals(loud(on_signal))
@@ -310,12 +311,15 @@ def make_run(base, maxc, states=None):
             # A job scheduled for exactly a bar's time (a rebalance at midnight with daily bars) pushes trading signals stamped
             # with that time; jobs run before the events of their time, so the signal is already queued when the bars of T
             # are popped. With the signal source subscribed AFTER the bar sources the exchange sees the bars of T first.
+            # recorder == "mid": the job runs strictly BETWEEN two bar times (the signal carries the job's own time)
+            off = 0.5 if recorder == "mid" else 0
+
             def mkjob(src, dst):
                 async def job():
-                    sig.push(bs.TradingSignal(T(times[src][0]), bs.Position.LONG, PS[dst]))
+                    sig.push(bs.TradingSignal(T(times[src][0] + off), bs.Position.LONG, PS[dst]))
                 return job
             for (src, dst) in script:
-                d.schedule(T(times[src][0]), mkjob(src, dst))
+                d.schedule(T(times[src][0] + off), mkjob(src, dst))
         if derived_first:
             subscribe()
         # The bars of a scenario are loaded ONCE into lists that every run of that scenario is given (each max_concurrent
